@@ -19,7 +19,7 @@ DATA_NAMES = ["y", "w", "v"]
 # ----------------------------------------------------------------------------- strategies
 
 @st.composite
-def graph_spec(draw, max_hypers=3, max_latents=2, max_data=3, latent_fams=None, data_fams=None, max_dim=5, hyper_fams=None):
+def graph_spec(draw, max_hypers=3, max_latents=2, max_data=3, latent_fams=None, data_fams=None, max_dim=5, hyper_fams=None, allow_far=False):
     nh = draw(st.integers(0, max_hypers))
     nl = draw(st.integers(1, max_latents))
     nd = draw(st.integers(1, max_data))
@@ -32,6 +32,8 @@ def graph_spec(draw, max_hypers=3, max_latents=2, max_data=3, latent_fams=None, 
     latents = []
     for i in range(nl):
         n = draw(st.integers(2, max_dim))
+        if i == 1 and draw(st.booleans()):
+            n = latents[0]["dim"]       # two unknowns of the same size (one forward-model object may then serve both)
         fam = draw(st.sampled_from(latent_fams or ["Gaussian", "Gaussian", "GMRF", "LMRF", "CMRF", "Laplace", "Normal", "Lognormal"]))
         hy = draw(st.sampled_from(free_hypers + [None])) if free_hypers else None
         lat = {"name": LATENT_NAMES[i], "dim": n, "fam": fam, "hyper": hy, "mean": draw(gen.vec(n, -1, 1)),
@@ -58,6 +60,10 @@ def graph_spec(draw, max_hypers=3, max_latents=2, max_data=3, latent_fams=None, 
         if fam == "Gaussian" and hy is not None and len(free_hypers) >= 2 and draw(st.booleans()):
             node["hyper2"] = draw(st.sampled_from([h for h in free_hypers if h != hy]))
         data.append(node)
+    if len(data) >= 2 and len(latents) == 2 and latents[0]["dim"] == latents[1]["dim"] and draw(st.booleans()):
+        # ONE LinearModel object used for two data nodes that observe two different unknowns (y ~ N(A x), w ~ N(A z))
+        data[0].update(latent=latents[0]["name"], model="linear_matrix", shared_base=True)
+        data[1].update(latent=latents[1]["name"], model="linear_matrix", shared_base=True, A=data[0]["A"], dim=data[0]["dim"])
     spec = {"hypers": hypers, "latents": latents, "data": data}
     # values: a complete admissible assignment
     vals = {}
@@ -70,6 +76,21 @@ def graph_spec(draw, max_hypers=3, max_latents=2, max_data=3, latent_fams=None, 
     for node in data:
         v = draw(gen.vec(node["dim"], -1.5, 1.5))
         vals[node["name"]] = [float(np.exp(t)) for t in v] if node["fam"] == "Lognormal" else v
+    # a latent far from the origin relative to its spread (mean 4.2e6, standard deviation ~1e-3: coordinates, time stamps); its data
+    # nodes get values near their own mean so that all factors stay in their bulk
+    lat0 = latents[0]
+    users0 = [nd_ for nd_ in data if nd_["latent"] == lat0["name"]]
+    if lat0["fam"] in ("Gaussian", "Normal") and all(nd_["fam"] in ("Gaussian", "Normal", "Laplace") for nd_ in users0) \
+            and allow_far and draw(st.sampled_from([False, False, False, False, True])):
+        lat0["mean"] = [4.2e6 + t for t in lat0["mean"]]
+        lat0["level"] = lat0["level"] * 1e-6
+        hv = vals[lat0["hyper"]][0] if lat0["hyper"] else 1.0
+        xfar = np.array(lat0["mean"]) + np.sqrt(lat0["level"] / hv) * np.array(draw(gen.vec(lat0["dim"], -1.5, 1.5)))
+        vals[lat0["name"]] = [float(t) for t in xfar]
+        for nd_ in users0:
+            mu_ = forward_fn(nd_)(xfar)
+            vals[nd_["name"]] = [float(t) for t in mu_ + np.sqrt(nd_["level"]) * np.array(draw(gen.vec(nd_["dim"], -1.5, 1.5)))]
+        spec["far_latent"] = True
     spec["values"] = vals
     # a hyper-parameter may carry the very name of the attribute it feeds (prec=lambda prec: ..., scale=lambda scale: ...)
     for h in hypers:
@@ -123,12 +144,16 @@ def forward_fn(node):
     return lambda x: A @ x
 
 
-def make_model(node):
+def make_model(node, cache=None):
     import cuqi
     A = np.array(node["A"], dtype=float)
     cc = node["cc"]
     lat = node["latent"]
     m, n = A.shape
+    if node["model"] == "linear_matrix" and node.get("shared_base") and cache is not None:
+        if "shared_base" not in cache:
+            cache["shared_base"] = cuqi.model.LinearModel(A)
+        return _rename(cache["shared_base"], lat)
     if node["model"] == "linear_matrix":
         return _rename(cuqi.model.LinearModel(A), lat)
     if node["model"] == "linear_func":
@@ -163,11 +188,11 @@ def _hy(hy, kind, lev, R=None):
     raise ValueError(kind)
 
 
-def _data_density(node):
+def _data_density(node, cache=None):
     import cuqi
     D = cuqi.distribution
     m = node["dim"]
-    mean = make_model(node)
+    mean = make_model(node, cache)
     hy, lev, name, fam = node["hyper"], node["level"], node["name"], node["fam"]
     if fam == "Gaussian":
         h2 = node.get("hyper2")
@@ -232,7 +257,8 @@ def _hyper_density(h):
 
 def build(spec):
     """Return list of cuqi densities in order (data..., latents..., hypers...)."""
-    return [_data_density(n) for n in spec["data"]] + [_latent_density(l) for l in spec["latents"]] + \
+    cache = {}
+    return [_data_density(n, cache) for n in spec["data"]] + [_latent_density(l) for l in spec["latents"]] + \
         [_hyper_density(h) for h in spec["hypers"]]
 
 
